@@ -21,6 +21,7 @@ def human_counters(out):
 
 def run(tier, seed):
     bytes_name_failures = 0
+    stale_hidden_runs = 0
     res = vlib.Result(PID, tier, seed)
     pr = proof_phase(res, PID)
     okm, outm = vlib.build_model()
@@ -176,6 +177,13 @@ def run(tier, seed):
                                 kind = ev["type"]
                     le_cases.append("LE %s %s 1:%s" % (mode, dinit, cw))
                     le_obs.append(kind)
+                    # nothing fails in these runs: the summary must not count a failure of any kind, and a dry run must announce
+                    # for the entry what the real run reported
+                    for l in rr["out"].split("\n"):
+                        if l.startswith("{") and '"summary"' in l:
+                            sm = json.loads(l)
+                            if rr["rc"] == 0 and (sm.get("verification_failures") or sm.get("errors")):
+                                viol.append({"world": "links-%s-%s-%s" % (mode, tkind, prior), "why": "exit 0 and the summary counts verification_failures=%s errors=%s" % (sm.get("verification_failures"), sm.get("errors"))})
                     after_l = os.path.lexists(base + "/dst/l")
                     if kind == "create" and (before_l or not after_l):
                         viol.append({"world": "links-%s-%s-%s" % (mode, tkind, prior), "why": "a create event is reported for a symlink entry although %s" % ("the path existed before" if before_l else "nothing appears in the destination")})
@@ -246,6 +254,29 @@ def run(tier, seed):
             if dele and (os.path.exists(b2 + b"/dst/stale_\xf4") or not any(e.get("type") == "delete" and "stale_" in str(e.get("path")) for e in evs2)):
                 viol.append({"world": "bytes-names-failures", "delete": dele, "why": "the stale destination file with a non-UTF-8 name: removed=%s, delete event present=%s"
                              % (not os.path.exists(b2 + b"/dst/stale_\xf4"), any(e.get("type") == "delete" and "stale_" in str(e.get("path")) for e in evs2))})
+        # what the destination scan does not list (.git, files hidden by an ignore rule) goes away with its stale parent directory:
+        # every path that vanished has a delete event, and the counter agrees
+        for jw in (1, 4):
+            b3 = os.path.join(sc.dir, "stalehidden%d" % jw)
+            for rel, data in (("src/keep", b"k"), ("dst/keep", b"k"), ("dst/old/x", b"x"), ("dst/old/.git/y", b"y"), ("dst/old/sub/.git/deep/z", b"z"), ("dst/old/.ignore", b"secret.log\n"),
+                              ("dst/old/secret.log", b"s"), ("dst/live/.git/cfg", b"c"), ("src/live/a", b"a"), ("dst/live/a", b"a")):
+                os.makedirs(os.path.dirname(os.path.join(b3, rel)), exist_ok=True)
+                with open(os.path.join(b3, rel), "wb") as fh:
+                    fh.write(data)
+            for root in ("src", "dst"):
+                for dp, _, fns in os.walk(os.path.join(b3, root)):
+                    for fn in fns:
+                        os.utime(os.path.join(dp, fn), ns=(ew.T0NS, ew.T0NS))
+            before3 = set(world.snapshot(b3 + "/dst", content=False))
+            pr3 = world.run_sy([b3 + "/src", b3 + "/dst", "--delete", "--force-delete", "--json", "-j%d" % jw], sc)
+            after3 = set(world.snapshot(b3 + "/dst", content=False))
+            evs3 = [json.loads(l) for l in pr3["out"].split("\n") if l.startswith("{")]
+            dels3 = sorted(os.path.relpath(e["path"], b3 + "/dst") for e in evs3 if e.get("type") == "delete")
+            summ3 = [e for e in evs3 if e.get("type") == "summary"]
+            gone3 = sorted(before3 - after3)
+            stale_hidden_runs += 1
+            if dels3 != gone3 or not summ3 or summ3[0].get("files_deleted") != len(gone3) or "live/.git/cfg" in gone3:
+                viol.append({"world": "stale-directory-with-unlisted-content", "j": jw, "why": "paths that vanished %r, delete events %r, files_deleted %s" % (gone3, dels3, summ3[0].get("files_deleted") if summ3 else None)})
     model = [ew.model_obs(m) for m in vlib.run_model(cases)]
     for case, o, m in zip(cases, obs_l, model):
         if o != m and ew.norm_events(o) != ew.norm_events(m):          # with several workers the events come in completion order
@@ -253,6 +284,7 @@ def run(tier, seed):
     diffs += link_diffs
     res.cov["link_event_cases"] = 72
     res.cov["non_utf8_name_failure_runs"] = bytes_name_failures
+    res.cov["stale_directory_with_unlisted_content_runs"] = stale_hidden_runs
     res.cov["evaluations"] = len(cases) * 2 + 72
     res.cov["distinct_nontrivial"] = len(nontriv)
     res.cov["model_impl_disagreements"] = len(diffs)
